@@ -83,6 +83,34 @@ def exactRunOk (n : Nat) (a b : Mat Rat) : Bool :=
   let st := backfill (reduce (echelon constsQ.fmin n (fillZero (ladderQ.headD 0) a, b)))
   st.1 == Q.identity n
 
+/-- largest elimination multiplier `|a_ik / pivot|` met by the EXACT run of `echelon` (mirrors
+    `echelonLoop`): the pivot search takes the largest SIGNED candidate, which can be tiny (e.g. `-(2/3)ε`
+    next to `-0.375`), so the multipliers are not bounded by 1 as with max-|·| pivoting -/
+def multLoop (fmin : Rat) (m n : Nat) : Nat → Nat → Nat → Mat Rat × Mat Rat → Rat → Rat
+  | 0, _, _, _, g => g
+  | fuel + 1, h, k, (left, right), g =>
+    if h < m ∧ k < n then
+      let i := (findMax fmin left k h m).1
+      if isZero (get left i k) then multLoop fmin m n fuel h (k + 1) (left, right) g
+      else
+        let sw := if h ≠ i then (swapRows left h i, swapRows right h i) else (left, right)
+        let piv := get sw.1 h k
+        let g' := (List.range' (h + 1) (m - (h + 1))).foldl
+          (fun acc r => Q.maxq acc (Q.absq (get sw.1 r k / piv))) g
+        multLoop fmin m n fuel (h + 1) (k + 1) (clearBelow h k sw.1 sw.2) g'
+    else g
+
+/-- growth factor `ρ ≥ 1` of the exact run at the first regulariser: the larger of the largest `echelon`
+    multiplier and the largest entry of the row-normalised (`reduce`d) left side, whose entries are the
+    multipliers of `backfill`. The rounding-error bound of an elimination is `c·n·u·‖|L||U|‖`, i.e. the
+    usual `κ·u` times this factor; it is 1..10 for ordinary SPD input and ~`‖A‖/ε` when an ε-sized pivot
+    is chosen (observation `corpus/C15/observation-tiny-pivot.req`) -/
+def growthFactor (n : Nat) (a b : Mat Rat) : Rat :=
+  let st0 := (fillZero (ladderQ.headD 0) a, b)
+  let g := multLoop constsQ.fmin a.length n n 0 0 st0 1
+  let red := reduce (echelon constsQ.fmin n st0)
+  Q.maxq g (red.1.foldl (fun mx r => Q.maxq mx (Q.normInfV r)) 1)
+
 /-- `κ∞` below which a failure / a larger regulariser is not excused when the exact run succeeds -/
 def kappaStrict : Rat := 1000000
 
@@ -122,6 +150,8 @@ def judgeDir (p : Nat) (s : Stats Rat) (dd dS : Rat) (w : List Rat) : String × 
   -- strict at ε₀: when the exact run of the elimination succeeds at the first regulariser and the bound
   -- there is meaningful, the direction must match the Fisher direction for ε₀ itself
   let strict := exactRunOk p s.sw s.sb
+  -- growth factor of the exact elimination (1 for a stable run)
+  let rho := growthFactor p s.sw s.sb
   let rec go : List Rat → Bool → Bool → String × Option (Rat × List Rat)
     | [], judged, _ => (if judged then "bad:not_fisher" else "na", none)
     | eps :: rest, judged, first =>
@@ -139,7 +169,7 @@ def judgeDir (p : Nat) (s : Stats Rat) (dd dS : Rat) (w : List Rat) : String × 
         -- ‖δf‖/‖f‖ ≤ κ∞(A)·(‖δd‖/‖d‖ + ‖δS‖/‖A‖), with the exact a-priori bounds `dd ≥ ‖δd‖∞`,
         -- `dS ≥ ‖δS‖∞` of a centred two-pass computation (see `inputPerturbation`), doubled
         let dn := Q.normInfV d
-        let bound := (4096 * (p : Rat)) * kappa * Q.dyadicInv 53
+        let bound := (4096 * (p : Rat)) * kappa * Q.dyadicInv 53 * rho
           + 2 * kappa * ((if dn = 0 then 0 else dd / dn) + dS / Q.normInfM ae)
         if bound > 1 / 10 then go rest judged false else
         match Q.solveExact ae (d.map fun x => [x]) with
@@ -235,16 +265,21 @@ def specGauss (n m : Nat) (a b : Mat Float) (impl : List String) : String :=
       let x : Mat Rat := chunk n m (bits.map fun v => (ratOfF64Bits v).getD 0)
       -- strict clause: the solution of the FIRST regulariser, to elimination accuracy
       let tauStrict : Rat := match kappa0 with
-        | some k => Q.minq tauGauss (4096 * (n : Rat) * k * Q.dyadicInv 53)
+        | some k => Q.minq tauGauss (4096 * (n : Rat) * k * Q.dyadicInv 53 * growthFactor n aq bq)
         | none => tauGauss
-      if wc && !(Q.gaussOk tauStrict [eps0] aq x bq m) then
-        (if Q.gaussOk tauGauss ladderQ aq x bq m then "bad:not_first_regulariser" else "bad:silently_wrong") else
-      if Q.gaussOk tauGauss ladderQ aq x bq m then "ok" else
+      let okSome := Q.gaussOk tauGauss ladderQ aq x bq m
+      if wc && okSome && !(Q.gaussOk tauStrict [eps0] aq x bq m) then "bad:not_first_regulariser" else
+      if okSome then "ok" else
       -- narrow signature of the known finding C15-silently-wrong-singular-illscaled: A is exactly
       -- singular (exact-ℚ rank < n) AND max |A_ij| ≥ 1e8 (the first regularisers are absorbed)
       let singular := (Q.solveExact aq (Q.identity n)).isNone
       let big := decide (aq.foldl (fun mx r => Q.maxq mx (Q.normInfV r)) 0 ≥ 100000000)
-      if singular && big then "bad:silently_wrong_singular_illscaled" else "bad:silently_wrong"
+      if singular && big then "bad:silently_wrong_singular_illscaled" else
+      -- narrow signature of the finding C15-silently-wrong-tiny-pivot: the EXACT run of the elimination at
+      -- ε₀ already has a multiplier ≥ 1e12 (the signed-max pivot search chose a regulariser-sized entry
+      -- such as -(5/13)·1e-8 over entries of size 1e6), so the f64 run is rounding noise from there on
+      if decide (growthFactor n aq bq ≥ 1000000000000) then "bad:silently_wrong_tiny_pivot" else
+      "bad:silently_wrong"
   | _ => "bad:unparsable_reply"
 
 /-! ### scorepsms -/
@@ -383,7 +418,8 @@ def handleScorePsms (args impl : List String) : Option Reply := do
     a different wrong answer on the same kind of input is reported under the general clause -/
 def narrowKnown (agree : Bool) (v : String) : String :=
   if agree then v else
-  (((v.replace "bad:silently_wrong_singular_illscaled" "bad:silently_wrong").replace
+  ((((v.replace "bad:silently_wrong_singular_illscaled" "bad:silently_wrong").replace
+      "bad:silently_wrong_tiny_pivot" "bad:silently_wrong").replace
       "bad:not_fisher_tiny_scale" "bad:not_fisher").replace
       "bad:not_fisher_start_orthogonal" "bad:not_fisher")
 
